@@ -40,9 +40,26 @@ type deployment struct {
 	mu    sync.Mutex
 	conns []*fakemc.Conn
 	slot  uint32
+	// problems: what the real main program did that the harness did not expect (app deployments)
+	problems func() []string
 }
 
 func startDeployment(cfg Cfg, port int) *deployment {
+	if cfg.App {
+		// the whole program: flags -> main -> listeners -> accept loop -> handler constructors
+		w := NewWorld(cfg)
+		d := &deployment{cfg: cfg, port: port, l1: w.L1, l2: w.L2, slot: appLockSlot}
+		w.ConnHook = func(tier int, c *fakemc.Conn) {
+			c.Async = true
+			d.mu.Lock()
+			d.conns = append(d.conns, c)
+			d.mu.Unlock()
+		}
+		w.startApp()
+		d.l = &memListener{conns: w.app.lst[port].ch}
+		d.problems = func() []string { return w.app.Problems }
+		return d
+	}
 	d := &deployment{cfg: cfg, port: port, l: &memListener{conns: make(chan net.Conn)}, l1: fakemc.NewStore("L1"), l2: fakemc.NewStore("L2")}
 	mk := func(st *fakemc.Store, kind string) handlers.HandlerConst {
 		return func() (handlers.Handler, error) {
@@ -162,6 +179,9 @@ func runC15(c *rt.Ctx) {
 			}
 		}
 	}
+	// deployments started by the real main program (handler constructors and listeners included)
+	cfgs = append(cfgs, Cfg{Orca: "l1only", Lock: "none", L1H: "std", App: true}, Cfg{Orca: "l1l2b", Lock: "multi", L1H: "std", App: true, Conc: 2},
+		Cfg{Orca: "l1l2b", Lock: "single", L1H: "chunked", App: true, Conc: 2})
 	type work struct {
 		cfg  Cfg
 		port int
@@ -395,6 +415,11 @@ func (d *deployment) runDisconnectMode(proto string, stream []byte, cut int, ove
 	}
 	if !cli.Closed() {
 		return "client-conn-not-closed", "the server did not close its side of the client connection"
+	}
+	if d.problems != nil {
+		if p := d.problems(); len(p) > 0 {
+			return "deployment", fmt.Sprintf("the main program did something the harness has no counterpart for: %v", p)
+		}
 	}
 	// the server keeps accepting: a fresh client is served correctly on the same keys
 	c2 := NewClient()
